@@ -547,7 +547,7 @@ func RunC16(tier string) int {
 		_ = os.MkdirAll(m.Home, 0755)
 		return m
 	}
-	files := map[string]string{"json": "BUILD.json", "yaml": "BUILD.yaml", "star": "BUILD.star", "star2": "BUILD.star", "make": "Makefile", "jsond": "BUILD.json", "yamld": "BUILD.yaml"}
+	files := map[string]string{"json": "BUILD.json", "yaml": "BUILD.yaml", "star": "BUILD.star", "star2": "BUILD.star", "make": "Makefile", "makelong": "Makefile", "jsond": "BUILD.json", "yamld": "BUILD.yaml"}
 
 	// (1) cross-format agreement
 	nAgree := tierN(tier, 60, 1200)
@@ -560,6 +560,11 @@ func RunC16(tier string) int {
 		render := map[string]string{"json": p.JSON(), "yaml": p.YAML(), "star": p.Starlark()}
 		if mkSafe {
 			render["make"] = p.Makefile()
+			if i%4 == 0 {
+				// the same Makefile behind a generated header line longer than any line buffer: grog
+				// may refuse it, but if it loads it, it loads all of it
+				render["makelong"] = "# " + strings.Repeat("generated ", 7000) + "\n" + p.Makefile()
+			}
 		}
 		loaded := map[string]map[string]string{}
 		var fmts []string
@@ -602,6 +607,10 @@ func RunC16(tier string) int {
 				run.Violation("loader-crash format="+f, "grog graph crashed on a generated "+files[f]+": "+c, map[string]any{"format": f, "file": render[f], "stderr": tailS(res.Stderr, 1500)})
 				return
 			}
+			if res.Exit != 0 && f == "makelong" {
+				run.Count("makefiles_with_an_overlong_line_refused", 1)
+				continue
+			}
 			if res.Exit != 0 {
 				run.Violation("valid-file-rejected format="+f, fmt.Sprintf("grog graph exited %d on a generated %s: %s", res.Exit, files[f], tailS(res.Stdout+res.Stderr, 400)), map[string]any{"format": f, "file": render[f]})
 				return
@@ -615,12 +624,12 @@ func RunC16(tier string) int {
 		}
 		base := loaded["json"]
 		for _, f := range fmts {
-			if f == "json" {
+			if f == "json" || loaded[f] == nil {
 				continue
 			}
 			for lb, want := range base {
 				got, ok := loaded[f][lb]
-				if f == "make" {
+				if f == "make" || f == "makelong" {
 					// compare without the command
 					var wm, gm map[string]any
 					_ = json.Unmarshal([]byte(want), &wm)
@@ -753,6 +762,11 @@ func RunC16(tier string) int {
 	// package using the pattern without the prefix, siblings with equal patterns
 	if report.Part("nestedglobs") {
 		c16NestedGlobs(run, st)
+	}
+	// (2c) Starlark files that compute from the platform names see the selected platform (the one
+	// JSON / YAML platform selectors are matched against), in the BUILD file and in loaded modules
+	if report.Part("starplatform") {
+		c16StarPlatform(run, st)
 	}
 	// (3) corruptions
 	nCor := tierN(tier, 1600, 60000)
@@ -906,5 +920,56 @@ func c16NestedGlobs(run *report.Run, st *e1.Setup) {
 			}
 			run.Nontrivial(fmt.Sprintf("nestedglobs|%s|w%d", lo.name, w))
 		}
+	}
+}
+
+func c16StarPlatform(run *report.Run, st *e1.Setup) {
+	dir := filepath.Join(st.Base, "starplatform")
+	defer os.RemoveAll(dir)
+	ws := filepath.Join(dir, "ws")
+	_ = os.MkdirAll(filepath.Join(ws, "st", "lib"), 0755)
+	_ = os.MkdirAll(filepath.Join(ws, "js"), 0755)
+	_ = os.WriteFile(filepath.Join(ws, "grog.toml"), []byte("num_workers = 2\n"), 0644)
+	_ = os.WriteFile(filepath.Join(ws, "st", "lib", "defs.star"), []byte("def tool():\n    target(name = \"tool_\" + GROG_OS, command = \"echo \" + GROG_ARCH, tags = [GROG_PLATFORM])\n"), 0644)
+	_ = os.WriteFile(filepath.Join(ws, "st", "BUILD.star"), []byte("load(\"lib/defs.star\", \"tool\")\ntool()\ntarget(name = \"pack_\" + GROG_OS + \"_\" + GROG_ARCH, command = \"echo \" + GROG_PLATFORM)\n"), 0644)
+	_ = os.WriteFile(filepath.Join(ws, "js", "BUILD.json"), []byte(`{"targets":[{"name":"only_plan9","command":"true","platforms":["plan9/mips"]},{"name":"only_host","command":"true","platforms":["linux/amd64","linux/arm64","darwin/arm64","darwin/amd64"]}]}`), 0644)
+	for _, pl := range []string{"", "plan9/mips"} {
+		m := &grog.Machine{Bin: st.Grog, Workspace: ws, Root: filepath.Join(dir, "root"), Home: filepath.Join(dir, "home"), Trace: filepath.Join(dir, "trace"), VctlBin: st.Vctl}
+		_ = os.MkdirAll(m.Home, 0755)
+		args := []string{"list", "//..."}
+		if pl != "" {
+			args = []string{"list", "--platform", pl, "//..."}
+		}
+		res := m.Run(args, grog.RunOpts{Build: "g", Timeout: 60 * time.Second})
+		run.Eval(1)
+		run.Count("starlark_platform_loads", 1)
+		got := linesOf(res.Stdout)
+		sort.Strings(got)
+		if res.Exit != 0 {
+			run.Inconclusive("starlark platform workspace not listed: " + tailS(res.Stdout+res.Stderr, 300))
+			return
+		}
+		// the JSON package says which platform the invocation selected
+		sel := ""
+		for _, l := range got {
+			if l == "//js:only_plan9" {
+				sel = "plan9/mips"
+			}
+		}
+		if pl == "" && sel != "" || pl != "" && sel == "" {
+			run.Inconclusive(fmt.Sprintf("--platform %q did not select what the JSON selectors say: %v", pl, got))
+			return
+		}
+		if pl == "" {
+			run.Nontrivial("starplatform|host")
+			continue // (the host's names are not known to the checker; judged under --platform only)
+		}
+		want := []string{"//js:only_plan9", "//st:pack_plan9_mips", "//st:tool_plan9"}
+		if strings.Join(got, " ") != strings.Join(want, " ") {
+			run.Violation("formats-disagree format=star field=platform-constants", fmt.Sprintf("grog list --platform plan9/mips //... printed %v: the JSON selectors are matched against plan9/mips, the Starlark file computed its names from another platform (expected %v)", got, want),
+				map[string]any{"got": got, "want": want, "output": tailS(res.Stdout+res.Stderr, 400)})
+			return
+		}
+		run.Nontrivial("starplatform|" + pl)
 	}
 }
